@@ -1,7 +1,7 @@
 (* C07: the abstract pipeline theorem instantiated with the model of Model/C07Reach.v. *)
 From Coq Require Import String Ascii.
 From Coq Require Import List Arith Lia Bool Permutation.
-Require Import TT.Model.Base TT.Model.Str TT.Model.C07TypeParse TT.Model.Harvest TT.Model.C07Worklist TT.Model.C07Reach.
+Require Import TT.Model.Base TT.Model.Str TT.Model.C07TypeParse TT.Model.C07Harvest TT.Model.C07Worklist TT.Model.C07Reach.
 Require Import TT.Spec.C07Spec TT.Proofs.WorklistSpike TT.Proofs.C07Proofs.
 Import ListNotations.
 
@@ -67,30 +67,29 @@ Proof.
   induction l as [|s l IH]; simpl; [tauto|]. rewrite !in_app_iff, IH. rewrite (proj2 (Ho S_FIELD n (ts_of s)) y). tauto.
 Qed.
 
-Theorem declared_exact decl : kf_c07_event_nested_opt p = Some false ->
+Lemma mapM_some {A B} (f : A -> option B) : forall l ys, mapM f l = Some ys ->
+  (forall y, In y ys -> exists x, In x l /\ f x = Some y) /\ (forall x, In x l -> exists y, In y ys /\ f x = Some y).
+Proof. induction l as [|a l IH]; intros ys H; simpl in H.
+  - inversion H; subst. split; intros ? [].
+  - destruct (f a) as [b|] eqn:Ea; [|discriminate]. destruct (mapM f l) as [bs|] eqn:El; [|discriminate].
+    inversion H; subst. destruct (IH bs eq_refl) as [H1 H2]. split.
+    + intros y [<-|Hy]; [exists a; split; auto; left; auto|]. destruct (H1 y Hy) as (x & Hx & Hf). exists x. split; auto. right; auto.
+    + intros x [<-|Hx]; [exists b; split; auto; left; auto|]. destruct (H2 x Hx) as (y & Hy & Hf). exists y. split; auto. right; auto.
+Qed.
+
+Theorem declared_exact decl :
   C07Reach.declared o p = Some decl ->
   NoDup decl /\ forall x, In x decl <-> SpecReach p x.
 Proof.
-  intros Hkf Hd. unfold C07Reach.declared in Hd.
+  intros Hd. unfold C07Reach.declared in Hd.
   destruct (discovered o p) as [disc|] eqn:Edisc; [|discriminate].
   destruct (used_types o p disc) as [used|] eqn:Eused; [|discriminate].
+  destruct (mapM (event_closure o p disc) (events p)) as [closures|] eqn:Ecl; [|discriminate].
   inversion Hd; subst decl; clear Hd.
   unfold discovered in Edisc. unfold used_types in Eused.
   pose proof Hagree as Ha. unfold agree_b in Ha.
   apply andb_true_iff in Ha as [Ha Ha3]. apply andb_true_iff in Ha as [_ Ha2].
   rewrite forallb_forall in Ha2, Ha3.
-  (* the complement of the event class, as a proposition *)
-  assert (Hne : forall x, target (spec_succ p) (resolvable p) (command_roots p ++ event_roots p) x ->
-                target (spec_succ p) (resolvable p) (command_roots p) x \/ In x (event_roots p)).
-  { unfold kf_c07_event_nested_opt, reach_from_opt in Hkf.
-    destruct (work _ _ _ _ _ (command_roots p ++ event_roots p) []) as [a|] eqn:Ea; [|discriminate].
-    destruct (work _ _ _ _ _ (command_roots p) []) as [b|] eqn:Eb; [|discriminate].
-    inversion Hkf as [Hs]. apply negb_false_iff in Hs. unfold subset_b in Hs. rewrite forallb_forall in Hs.
-    destruct (work_exact str str_dec _ _ _ (fun n H => H) _ _ _ Ea) as [_ HA].
-    destruct (work_exact str str_dec _ _ _ (fun n H => H) _ _ _ Eb) as [_ HB].
-    intros x Hx. apply (target_ext _ _ _ _ defined_agree) in Hx. apply HA in Hx. apply Hs in Hx.
-    apply smemb_true in Hx. apply in_app_or in Hx as [Hx|Hx]; auto.
-    left. apply (target_ext _ _ _ _ defined_agree). apply HB; auto. }
   pose proof (pipeline_exact str str_dec
     (fun n => o S_DEPS n (deps_of p n)) (resolvable p) (indexed p) (resolvable_indexed p)
     (o S_ROOTS [] (harvest_roots p)) (fields_ts o p) (o S_USED [] (used_roots p))
@@ -126,7 +125,23 @@ Proof.
       apply smemb_true. apply (proj2 (Ho S_EVENT e0 (ts_of e0)) y). auto.
     - intros (e0 & He0 & Hye). exists (o S_EVENT e0 (ts_of e0)). split; [apply in_map_iff; exists e0; split; auto|].
       apply (proj2 (Ho S_EVENT e0 (ts_of e0)) y). apply smemb_true; auto. }
-  destruct (HP HAH HAT HRT HRH HET Hne _ _ _ _ Edisc Eused) as [Hnd Hin].
+  (* the closures are what the nested worklist computes from the payload names *)
+  assert (HCL : forall x, smemb x disc = true ->
+                ((exists cl, In cl closures /\ In x cl) <->
+                 exists init, In init (map (fun e => o S_EVENT e (ts_of e)) (events p)) /\
+                              target (fun n => concat (fields_ts o p n)) (fun n => smemb n disc) init x)).
+  { intros x Hx. destruct (mapM_some _ _ _ Ecl) as [M1 M2]. split.
+    - intros (cl & Hcl & Hxcl). destruct (M1 cl Hcl) as (e & He & Hf). unfold event_closure in Hf. cbv zeta in Hf.
+      destruct (nested str_dec (fields_ts o p) (fun n => smemb n disc) _ (o S_EVENT e (ts_of e)) [] _) as [out|] eqn:En; [|discriminate]. simpl in Hf. injection Hf as <-.
+      apply (proj2 (Ho S_CLOSURE e out) x) in Hxcl.
+      destruct (nested_exact str str_dec _ _ _ _ _ En) as [_ Hout].
+      exists (o S_EVENT e (ts_of e)). split; [apply in_map_iff; exists e; split; auto|]. apply Hout; auto.
+    - intros (init & Hi & Ht). apply in_map_iff in Hi as (e & <- & He). destruct (M2 e He) as (cl & Hcl & Hf).
+      exists cl. split; auto. unfold event_closure in Hf. cbv zeta in Hf.
+      destruct (nested str_dec (fields_ts o p) (fun n => smemb n disc) _ (o S_EVENT e (ts_of e)) [] _) as [out|] eqn:En; [|discriminate]. simpl in Hf. injection Hf as <-.
+      apply (proj2 (Ho S_CLOSURE e out) x).
+      destruct (nested_exact str str_dec _ _ _ _ _ En) as [_ Hout]. apply Hout; auto. }
+  destruct (HP HAH HAT HRT HRH HET _ _ _ _ closures Edisc Eused HCL) as [Hnd Hin].
   split; [exact Hnd|]. intros x. rewrite Hin. unfold SpecReach. apply target_ext. apply defined_agree.
 Qed.
 End Concrete.
@@ -140,11 +155,11 @@ Lemma ord_ok_default : ord_ok o_default.
 Proof. intros s k l. unfold o_default, dedup. split; [apply NoDup_nodup|]. intros x. apply nodup_In. Qed.
 
 Theorem declared_permutation : forall o p decl l,
-  ord_ok o -> agree_b p = true -> kf_c07_event_nested_opt p = Some false ->
+  ord_ok o -> agree_b p = true ->
   C07Reach.declared o p = Some decl -> reach_from_opt p (command_roots p ++ event_roots p) = Some l ->
   Permutation decl l.
 Proof.
-  intros o p decl l Ho Ha Hk Hd Hl. destruct (declared_exact o Ho p Ha decl Hk Hd) as [H1 H2].
+  intros o p decl l Ho Ha Hd Hl. destruct (declared_exact o Ho p Ha decl Hd) as [H1 H2].
   destruct (reachable_spec_exact p l Hl) as [H3 H4]. apply NoDup_Permutation; auto.
   intros x. rewrite H2, H4. tauto.
 Qed.
